@@ -10,6 +10,7 @@ from .. import templ, predabs
 from . import shared_gen as G
 from . import shared_cxx as X
 from . import shared_model as M
+from . import shared_py as P
 
 
 def run(ctx, L, tier):
@@ -30,94 +31,67 @@ def run(ctx, L, tier):
     return sorted(set(o.rule for o in L.obligations))
 
 
+REF_GET_BYTE_SIZE = """
+    bytes_ = 0
+    elems = []
+    for m in node.members:
+        if m.kind == model.Kind.FIXED:
+            if m.is_dynamic or m.greedy:
+                elems += ['{0}.size() * {1}'.format(m.name, _get_byte_size(m))]
+            else:
+                bytes_ += m.byte_size + max(m.padding, 0)
+        else:
+            if m.is_dynamic or m.greedy:
+                elems += ['std::accumulate({0}.begin(), {0}.end(), size_t(), prophy::detail::byte_size())'.format(m.name)]
+            else:
+                elems += ['{0}.get_byte_size()'.format(m.name)]
+        if m.padding < 0:
+            if bytes_:
+                elems += [str(bytes_)]
+                bytes_ = 0
+            elems = ['prophy::detail::nearest<{0}>(\\n'.format(abs(m.padding)) + _indent(' + '.join(elems)) + '\\n)']
+    if bytes_:
+        elems += [str(bytes_)]
+    return 'return {0};\\n'.format(' + '.join(elems))
+"""
+
+
 def size_ladder(ctx, L):
-    """generate_struct_get_byte_size vs generate_struct_encode: every abstract member contributes exactly one size term
-    matching what its encode statement advances by, and every align<N> of encode has a nearest<N> group closing at the
-    same member."""
+    """generate_struct_get_byte_size: for every abstract member (kind x form x padding sign) the statements on the member's own
+    path through the loop body are, at meaning level, those of the reference above - exactly one size term matching what the
+    member's encode statement advances by (static slot + positive padding / count x element size / accumulate / nested
+    get_byte_size) and, for any member carrying a negative marker whatever its kind, the flush of the static bytes and the
+    nearest<|padding|>( sum so far ) group that is the counterpart of `pos = align<N>(pos)` in encode."""
     m = ctx.py.mod('prophyc.generators.cpp_full')
     f = m.func('generate_struct_get_byte_size')
     var, loop = templ.member_loop(f)
     props = predabs.model_props(ctx.py)
-    ev = predabs.Evaluator(props, var)
-    want = {
-        'static': "bytes_ += m.byte_size + max(m.padding, 0)",
-        'count*size': "elems += ['{0}.size() * {1}'.format(m.name, _get_byte_size(m))]",
-        'accumulate': "elems += ['std::accumulate({0}.begin(), {0}.end(), size_t(), prophy::detail::byte_size())'.format(m.name)]",
-        'nested': "elems += ['{0}.get_byte_size()'.format(m.name)]",
-    }
-    static_alt = ["bytes_ += m.byte_size + max(m.padding, 0)", "bytes_ += m.byte_size + (m.padding if m.padding > 0 else 0)",
-                  "bytes_ += m.byte_size + max(0, m.padding)"]
-    group = ("elems = ['prophy::detail::nearest<{0}>(\\n'.format(abs(m.padding)) + _indent(' + '.join(elems)) + '\\n)']")
+    ref = P._FakeFunc(REF_GET_BYTE_SIZE, ['node'], m)
+    rloop = [st for st in ref.node.body if isinstance(st, ast.For)][0]
+    g = P.module_globals(m) | P.ALL_GLOBALS
 
-    def mentions_member(e):
-        return any(isinstance(x, ast.Name) and x.id == var for x in ast.walk(e))
-
-    def execute(stmts, am, maybe, out):
-        """Abstract execution of the loop body for one abstract member: the simple statements it runs, in order; a guard
-        over the member is decided by the predicate abstraction, a guard over generator state (`if bytes_:`) forks as
-        'maybe'. Returns False when the iteration ended with `continue`."""
-        for st in stmts:
-            if isinstance(st, ast.If):
-                if mentions_member(st.test):
-                    try:
-                        t = bool(ev.ev(st.test, am))
-                    except predabs.Unknown as e:
-                        raise AnalysisError('generate_struct_get_byte_size: guard term not recognised: %s' % e)
-                    if not execute(st.body if t else st.orelse, am, maybe, out):
-                        return False
-                else:
-                    g = ws(unparse(st.test))
-                    r1 = execute(st.body, am, maybe + [g], out)
-                    r2 = execute(st.orelse, am, maybe + ['not ' + g], out)
-                    if r1 != r2:
-                        raise AnalysisError('generate_struct_get_byte_size: `continue` under a state guard')
-                    if not r1:
-                        return False
-            elif isinstance(st, ast.Continue):
-                return False
-            elif isinstance(st, (ast.Assign, ast.AugAssign, ast.Expr)):
-                out.append((ws(unparse(st)), tuple(maybe), st))
-            else:
-                raise AnalysisError('generate_struct_get_byte_size: statement kind %s not modelled' % type(st).__name__)
-        return True
-
-    def expected(a):
-        dyn_elem = a.kind != predabs.FIXED
-        if a.form in ('dynamic', 'greedy'):
-            return 'accumulate' if dyn_elem else 'count*size'
-        if dyn_elem:
-            return 'nested'
-        return 'static'     # plain, optional, sizer, fixed and limited arrays of fixed elements: static slot
-    flush = [('elems += [str(bytes_)]', ('bytes_',)), ('bytes_ = 0', ('bytes_',))]
+    def around(fn, lp):
+        order = {}
+        pre = [P._sem(st, list(fn.params), {}, g, order) for st in P._body(fn.node) if st is not lp and P._body(fn.node).index(st) < P._body(fn.node).index(lp)]
+        pre_order = dict(order)
+        P._sem(lp.target, list(fn.params), {}, g, order)
+        post = [P._sem(st, list(fn.params), {}, g, order) for st in P._body(fn.node) if st is not lp and P._body(fn.node).index(st) > P._body(fn.node).index(lp)]
+        return sorted(pre), post, pre_order
+    pre, post, order_f = around(f, loop)
+    rpre, rpost, order_r = around(ref, rloop)
+    L.check(pre == rpre and post == rpost and ws(unparse(loop.iter)) == '%s.members' % f.params[0], 'F10.size-align-group', 'get_byte_size|frame', f.site(),
+            'around the member loop: the running static size and the term list start empty, the loop visits node.members in order, '
+            'remaining static bytes are added and all terms summed; expected %s ... %s, got %s ... %s' % (rpre, rpost, pre, post), '')
     n = 0
     for a in predabs.domain(paddings=(0, 3, -8)):
-        eff = []
-        execute(loop.body, a, [], eff)
-        terms = [(t, mb, st) for t, mb, st in eff if t in set(want.values()) | set(static_alt)]
-        exp = expected(a)
-        got = terms[0][0] if len(terms) == 1 and not terms[0][1] else ' ; '.join(t for t, _, _ in terms)
-        good = len(terms) == 1 and not terms[0][1] and (got in static_alt if exp == 'static' else got == want[exp])
         n += 1
-        L.check(good, 'F10.size-term', 'get_byte_size|%s|pad%+d' % (a.label(), a.padding), f.site(terms[0][2] if terms else loop),
-                'a `%s` member (padding %+d) must contribute exactly the size term `%s` (what its encode statement advances by); it gets `%s`'
-                % (a.label(), a.padding, want[exp], got), got)
-        rest = [(t, mb) for t, mb, st in eff if (t, mb, st) not in terms]
-        if a.padding < 0:
-            # after the member's own term: flush the static bytes (if any), then wrap everything so far in nearest<|padding|>
-            okg = rest == flush + [(group, ())] and eff[0][0] == terms[0][0] if terms else False
-            why = ('a member carrying the negative marker %d must close a prophy::detail::nearest<%d>( sum so far ) group after its own '
-                   'term, whatever its kind - the counterpart of `pos = align<N>(pos)` in encode; executed: %s' % (a.padding, -a.padding, [t for t, _ in rest]))
-        else:
-            okg = rest == []
-            why = 'a member without a negative marker runs nothing but its size term; executed: %s' % [t for t, _ in rest]
-        L.check(okg, 'F10.size-align-group', 'get_byte_size|%s|pad%+d' % (a.label(), a.padding), f.site(loop), why, str(rest)[:300])
+        got = P.trace(f, a, var, props, body=loop.body, pre_order=order_f)
+        want = P.trace(ref, a, 'm', props, body=rloop.body, pre_order=order_r)
+        L.check(got == want, 'F10.size-term', 'get_byte_size|%s|pad%+d' % (a.label(), a.padding), f.site(loop),
+                'for a `%s` member with padding %+d the size generator must do %s (its size term = what the member\'s encode statement '
+                'advances by; a negative marker closes a nearest<N> group whatever the kind of the member); it does %s'
+                % (a.label(), a.padding, want, got), str(got)[:300])
     L.floor('F10.size-term', n, 120)
-    pre = [ws(unparse(s)) for s in f.node.body if s is not loop and f.node.body.index(s) < f.node.body.index(loop)]
-    L.check(sorted(pre) == ['bytes_ = 0', 'elems = []'], 'F10.size-align-group', 'get_byte_size|init', f.site(),
-            'the running static size and the term list start empty', str(pre))
-    tail = [ws(unparse(s)) for s in f.node.body[-2:]]
-    L.check(tail == ['if bytes_: elems += [str(bytes_)]', "return 'return {0};\\n'.format(' + '.join(elems))"], 'F10.size-align-group',
-            'get_byte_size|tail', f.site(), 'remaining static bytes are added and all terms summed', str(tail))
     gb = m.func('_get_byte_size')
     s = ws(unparse(gb.node))
     L.check(inn('if isinstance(node, model.Enum): return DISC_SIZE', s) and inn('return BUILTIN_SIZES.get(node.type_name)', s)
